@@ -19,8 +19,9 @@ the Rust source) executed on a list of three symbolic operands.  Each statement 
   which is the model's `productRefs id` / `sumRefs id` (`Product<&'a T>` / `Sum<&'a T>`);
 * for `Basis2` / `Basis3` the product kernel is the matrix product kernel run on the underlying rotation matrices.
 
-Traced kernels that do not exist (no driver op): `Sum<&'a MatrixN>` by reference, `Product<&'a Basis2>` by reference; lists are
-of length three (the fold equations of the Props layer hold for every length).
+Lists are of length three here (the fold equations of the Props layer hold for every length); the lengths 0, 1, 2, 4, 5, the
+by-reference impls `Sum<&'a MatrixN>` / `Product<&'a Basis2>`, and the reference-operand / compound-assignment forms of the
+binary operators are in `Cgm/E2E/C17b.lean`.
 -/
 set_option linter.unusedSectionVars false
 set_option linter.unusedVariables false
